@@ -741,6 +741,26 @@ pub fn run(ctx: &Ctx, rep: &Report) -> Meta {
         }
     }
     par_items(ctx, rep, "boundaries", &fixed, |op| run_op(rep, "boundaries", op));
+    // volume: thousands of small Sign / Verify / ProofVerify comparisons (Sign is deterministic: octets must be equal).
+    // A step that goes wrong for one value in a few hundred of an internal quantity (a leading zero octet of e, of a
+    // challenge, of a hashed scalar) shows only in volume
+    {
+        let nvol = tier.pick(3600usize, 40000usize);
+        let vol: Vec<Op> = (0..nvol)
+            .map(|k| {
+                let suite = if k % 2 == 0 { SuiteId::Sha256 } else { SuiteId::Shake256 };
+                let key = KeySpec { fixture: k % 11 == 0, ikm: BSpec { len: 32, class: 0, seed: (k % 13) as u32 }, key_info: OptBytes::None, key_dst: OptBytes::None };
+                let header = [OptBytes::None, OptBytes::Bytes(BSpec { len: 7, class: 0, seed: k as u32 }), OptBytes::Empty][k % 3].clone();
+                let msgs = MsgVec { items: (0..(k / 3) % 4).map(|j| BSpec { len: [6usize, 0, 33][j % 3], class: 0, seed: (k * 8 + j) as u32 }).collect() };
+                match k % 6 {
+                    0 | 1 | 2 | 3 => Op::Sign { suite, key, header, msgs },
+                    4 => Op::Verify { suite, key, header, msgs, m: Mutn::None },
+                    _ => Op::Proof { suite, key, header, ph: OptBytes::Bytes(BSpec { len: 5, class: 0, seed: k as u32 }), msgs, mask: k as u32, by_ref: k % 12 == 5, seed: k as u32, m: Mutn::None },
+                }
+            })
+            .collect();
+        par_items(ctx, rep, "volume", &vol, |op| run_op(rep, "volume", op));
+    }
     // every message count in a contiguous range: Sign octets, the verifier's decision, a proof made by either side
     let mut sweep: Vec<Op> = vec![];
     for l in 0..=ctx.tier.pick(72usize, 260usize) {
@@ -761,7 +781,7 @@ pub fn run(ctx: &Ctx, rep: &Report) -> Meta {
                hash_to_scalar (dst up to 400 octets), messages_to_scalars, Sign, and verifier decisions on honest and mutated artefacts (message / header / ph / pk edits, bit flips, index shifts, whole-scalar framing edits, zero scalars, a scalar written as value + r, artefacts forged around the identity element (proof with Abar = Bbar = O and cancelling responses, signature under the identity public key), identity points, trailing bytes, L+-1, other blinding factor, list shapes of the disclosed data: one more message than indexes, one more (unlisted) index than messages, a second entry under an index that is already listed) \
                for verify, proof_verify, blind_sign's commitment validation, verify_blind_sign, blind_proof_verify; proofs and commitments made by the library must be accepted by the reference and vice versa; \
                oracle: byte equality of outputs and equality of Ok/Err decisions with the independent reference model, which must first reproduce every fixture; \
-               size sweep: Sign octets, proof and blind round trips for every L in 0..=72 (quick) / 0..=260 (thorough); every message length 0..=600 / 2100 through messages_to_scalars, every header length 0..=1100 through Sign, every hash_to_scalar input length 0..=300, every interface-identifier length 190..=262 through messages_to_scalars and create_generators; a third of the operations after a warm-up history; schedules: lists of such operations executed by 2, 4 or 16 threads released from a barrier in rotated orders; non-trivial = every generated operation (none coincides with a fixture); evaluations = compared outputs / decisions"
+               size sweep: Sign octets, proof and blind round trips for every L in 0..=72 (quick) / 0..=260 (thorough); every message length 0..=600 / 2100 through messages_to_scalars, every header length 0..=1100 through Sign, every hash_to_scalar input length 0..=300, every interface-identifier length 190..=262 through messages_to_scalars and create_generators; a third of the operations after a warm-up history; volume: 3600 (quick) / 40000 (thorough) small Sign / Verify / ProofVerify comparisons; schedules: lists of such operations executed by 2, 4 or 16 threads released from a barrier in rotated orders; non-trivial = every generated operation (none coincides with a fixture); evaluations = compared outputs / decisions"
             .into(),
         assumptions: vec![
             "trusted and shared with the library: bls12_381_plus arithmetic, point compression, pairing, hash_to_curve, sha2 / sha3".into(),
